@@ -130,6 +130,19 @@ def gen(tier, rng):
             out.append(mk(False, ["expand"], ["%x%", "k%y%"], p, vs))
             out.append(mk(True, ["re", "expand"], ["a%x%.*%y%"], p, vs))
             out.append(mk(True, ["expand", "contains"], ["%x%", "b%z%"], p, vs, all_=True))
+    # 3b. query-expression items on placeholder-only values (the only values they accept), all positions
+    qe_pipes = [p for p in PIPELINES if any(d["t"] == "qe" for d in p)]
+    for mp in [{}, {"x": "XL"}, {"x": "", "y": "YL"}, {"z": "x"}]:
+        for expr in ["{field} lookup {id}", "lookup({id})", "{id}", "in_list({field}, {id})", "static"]:
+            qe_pipes.append([it("qe", expr=expr, mp=mp)])
+            qe_pipes.append([it("vl", inc=["z"]), it("qe", expr=expr, mp=mp, exc=["y"])])
+    for p in qe_pipes:
+        for values in (["%x%"], ["%y%"], ["%x%", "%z%"], ["%x%", "lit"], ["%x%%y%"], ["*%x%"]):
+            for field in (True, False):
+                out.append(mk(field, ["expand"], values, p, VARSETS[0]))
+        out.append(mk(True, ["expand", "contains"], ["%x%"], p, VARSETS[0]))
+        out.append(mk(True, ["re", "expand"], ["%x%"], p, VARSETS[0]))
+        out.append(mk(True, ["expand"], ["%x%", "%y%"], p, VARSETS[2], all_=True))
     # 4. random
     for _ in range(1500 if quick else 40000):
         regex = rng.random() < 0.3
@@ -190,10 +203,10 @@ def cvalue(v):
 
 def cout(r):
     if "ok" in r:
-        return f"(Ok {cstr(r['ok'])})"
+        return f"(@Ok str {cstr(r['ok'])})"
     if r.get("sigma"):
-        return f"(SigmaErr {ETAG.get(r['exc'], 99)})"
-    return "(Crash 1)"
+        return f"(@SigmaErr str {ETAG.get(r['exc'], 99)})"
+    return "(@Crash str 1)"
 
 def to_coq(c, r):
     if "exc" in r and "q" not in r:      # the harness function itself failed
@@ -204,9 +217,9 @@ def to_coq(c, r):
             f"c_items := {clist(citem(d) for d in c['items'])}; c_vars := {cvars(c['vars'])} |}}")
     if "vals" in r["pipe"]:
         vs = [cvalue(v) for v in r["pipe"]["vals"]]
-        pipe = "None" if any(v is None for v in vs) else f"(Some {clist(vs)})"
+        pipe = "(@None (list value))" if any(v is None for v in vs) else f"(@Some (list value) {clist(vs)})"
     else:
-        pipe = "None"
+        pipe = "(@None (list value))"
     return f"({case}, {pipe}, {cout(r['q'])}, {cout(r['stock'])})"
 
 # ---------------------------------------------------------------------------------------------
